@@ -25,11 +25,11 @@ git checkout -q go.mod go.sum 2>/dev/null
 echo "orig_demo_rc=$ORIG build_rc=$BUILD mutant_demo_rc=$MUT suite_rc=$SUITE"
 if [ $ORIG -eq 0 ] && [ $BUILD -eq 0 ] && [ $MUT -ne 0 ] && [ $SUITE -eq 0 ]; then
   mkdir -p /verif/seeded/$NAME && cp "$SRC"/patch.diff "$SRC"/meta.json /verif/seeded/$NAME/ && for f in "$SRC"/*.go; do [ -f "$f" ] && cp "$f" /verif/seeded/$NAME/$(basename $f).txt; done
-  python3 - <<PY
-import json
-p='/verif/seeded/$NAME/meta.json'; m=json.load(open(p))
+  SV_NAME="$NAME" SV_DEMO="$DEMO" SV_MUT="$MUT" python3 - <<'PY'
+import json, os
+p='/verif/seeded/%s/meta.json' % os.environ['SV_NAME']; m=json.load(open(p))
 m['confirmed']={'demo_passes_on_original':True,'builds_with_patch':True,'demo_fails_with_patch':True,'existing_suite_passes_with_patch':True,
- 'how':'tools/seedverify.sh in a scratch worktree of /repo HEAD: '+ '$DEMO' +' (orig rc 0, mutant rc $MUT); go build ./...; go test -vet=off -count=1 ./... (rc 0)'}
+ 'how':'tools/seedverify.sh in a scratch worktree of /repo HEAD: %s (orig rc 0, with patch rc %s); go build ./...; go test -vet=off -count=1 ./... (rc 0)' % (os.environ['SV_DEMO'], os.environ['SV_MUT'])}
 json.dump(m,open(p,'w'),indent=1)
 PY
   echo "KEPT /verif/seeded/$NAME"
